@@ -125,6 +125,9 @@ type pworld struct {
 	held     string
 
 	liveBroken bool
+
+	sawBlocked   bool
+	afterHandler func() // direct mode: runs right after the handler returned, before outputs are collected
 }
 
 // psupCtx returns a context that belongs to a running supervisor (handleMessage/handleInjection call supervisor.Logger(ctx)).
@@ -359,6 +362,9 @@ func (w *pworld) liveOp(op, fields string, send func(giveUp <-chan time.Time) bo
 			out = strings.Join(all, "|")
 		}
 	}
+	if local {
+		fields += " orec=" + orecOf(out)
+	}
 	if !local || !strings.Contains(out, "O:") {
 		st, dbs := w.summary()
 		fmt.Fprintf(w.w, "%s %s now=%d %s res=ok out=%s st=%s db=%s\n", op, w.caseID, w.now, fields, out, st, dbs)
@@ -530,16 +536,51 @@ func (w *pworld) drainReq() string {
 	return strings.Join(outs, "|")
 }
 
+// orecOf: for every signed observation the node broadcast, who its signature recovers to over the hash it names (oracle).
+func orecOf(out string) string {
+	var parts []string
+	for _, o := range strings.Split(out, "|") {
+		if !strings.HasPrefix(o, "O:") {
+			continue
+		}
+		f := strings.Split(o, ":")
+		if len(f) != 5 {
+			continue
+		}
+		h, _ := hex.DecodeString(f[2])
+		sg, _ := hex.DecodeString(f[3])
+		parts = append(parts, f[3]+"="+precover(h, sg))
+	}
+	if len(parts) == 0 {
+		return "-"
+	}
+	return strings.Join(parts, ";")
+}
+
 func (w *pworld) emit(op string, fields string, f func(), expectLoop bool) bool {
 	panicked := ""
-	func() {
+	done := make(chan string, 1)
+	go func() {
 		defer func() {
 			if e := recover(); e != nil {
-				panicked = fmt.Sprint(e)
+				done <- fmt.Sprint(e)
+			} else {
+				done <- ""
 			}
 		}()
 		f()
 	}()
+	wait := 15 * time.Second
+	if w.sawBlocked {
+		wait = 2 * time.Second // one full wait is enough; further blocked handlers are reported without it
+	}
+	select {
+	case panicked = <-done:
+	case <-time.After(wait):
+		// a handler that does not return stalls the whole Run loop (every handler is synchronous there)
+		panicked = "handler_blocked"
+		w.sawBlocked = true
+	}
 	w.nline++
 	w.dist[op]++
 	if panicked != "" {
@@ -557,6 +598,9 @@ func (w *pworld) emit(op string, fields string, f func(), expectLoop bool) bool 
 	}
 	out := w.drain(expectLoop)
 	st, dbs := w.summary()
+	if op == "msg" || op == "inj" {
+		fields += " orec=" + orecOf(out)
+	}
 	fmt.Fprintf(w.w, "%s %s now=%d %s res=ok out=%s st=%s db=%s\n", op, w.caseID, w.now, fields, out, st, dbs)
 	return true
 }
@@ -625,7 +669,12 @@ func (w *pworld) message(k *common.MessagePublication) bool {
 			}
 		}, true, digest)
 	}
-	return w.emit("msg", fields, func() { w.p.handleMessage(w.ctx, k) }, true)
+	return w.emit("msg", fields, func() {
+		w.p.handleMessage(w.ctx, k)
+		if w.afterHandler != nil {
+			w.afterHandler()
+		}
+	}, true)
 }
 
 func (w *pworld) injection(v *vaa.VAA) bool {
@@ -1448,6 +1497,60 @@ func (w *pworld) bigSetFamily(id string, n int) {
 	w.cleanup(preqCap)
 }
 
+// full-queue family (C02 / C14 / C17): (1) the node's own observation is looped back even when the observation queue is full at
+// the moment the message is handled (the queue holds 50 entries in production; under gossip load it is full now and then) - the
+// loopback has to wait for room, not be dropped; (2) a retry tick that finds the outbound request queue full drops the request,
+// still re-broadcasts the observation, and returns.
+func (w *pworld) fullQueueFamily(id string) {
+	r := w.r
+	set := w.randKeys(4)
+	w.reset(id, set[1])
+	gs := &common.GuardianSet{Index: 2}
+	for _, x := range set {
+		gs.Keys = append(gs.Keys, x.addr)
+	}
+	if !w.setUpdate(gs) {
+		return
+	}
+	var emitter vaa.Address
+	r.Read(emitter[:])
+	k := w.randMsg(emitter, 1)
+	// a two-slot observation queue, full of other guardians' traffic while handleMessage runs
+	small := make(chan *gossipv1.SignedObservation, 2)
+	w.obsvC, w.p.obsvC = small, small
+	junk := make([]byte, 32)
+	r.Read(junk)
+	small <- w.obsFor(set[2], junk)
+	small <- w.obsFor(set[3], junk)
+	w.afterHandler = func() {
+		// Run takes the queued observations next: room appears and the waiting loopback goes in
+		<-small
+		<-small
+	}
+	ok := w.message(k)
+	w.afterHandler = nil
+	if !ok {
+		return
+	}
+	d := w.mkVAA(k, gs.Index).SigningMsg().Bytes()
+	if !w.observation(w.obsFor(set[1], d)) {
+		return
+	}
+	if !w.observation(w.obsFor(set[0], d)) {
+		return
+	}
+	// no quorum (2 of 4): five minutes later the retry is due; the request queue is full
+	w.advance(301 * time.Second)
+	if !w.cleanup(0) {
+		return
+	}
+	w.advance(300 * time.Second)
+	if !w.cleanup(1) {
+		return
+	}
+	w.observation(w.obsFor(set[2], d))
+}
+
 // subset family (C01/C02): every guardian-set size up to nmax, every position of the own key, every subset of the
 // other guardians signing; observations delivered in random order, own loopback at a random position.
 func (w *pworld) subsetFamily(id string, nmax int) {
@@ -1572,6 +1675,9 @@ func TestVerifProcessor(t *testing.T) {
 	}
 	for _, n := range bigs {
 		w.bigSetFamily(fmt.Sprintf("b%d", n), n)
+	}
+	for i := 0; i < 3; i++ {
+		w.fullQueueFamily(fmt.Sprintf("f%d", i))
 	}
 	w.soak("k0", 14, false)
 	w.soak("k1", 14, true)
